@@ -79,7 +79,7 @@ Section Facts.
 
   Notation st := (Impl.st E).
   Notation transition := (Impl.transition E e_opened e_closed).
-  Notation handle_op := (Impl.handle_op E U D e_user e_disc e_reset).
+  Notation handle_op := (Impl.handle_op E U D e_tag e_user e_disc e_reset).
 
   Definition tag (c : st) : etag := e_tag (c_eng c).
 
@@ -185,7 +185,7 @@ Section Facts.
     match transition c now t with
     | (c', evs, Ok _) => cinv c' (log ++ evs) /\ c_des c' = c_des c /\ c_cur c' = effective_target c t
     | (_, _, Err _) => False
-    | (_, evs, Panic _) => evs = []
+    | (_, evs, Panic _) => evs = [] /\ effective_target c t = CConnected
     end.
 
   Ltac solve_link :=
@@ -219,9 +219,9 @@ Section Facts.
         try (intros _; apply T2; congruence); eexists; split; reflexivity.
     - (* Connecting -> Connected *)
       destruct Hl as [Hl1 Hl2]. subst ph. cbn.
-      destruct (c_start c) as [t0|]; [|reflexivity].
-      unfold add_instant. destruct (IMAX <? t0 + c_timeout c); [reflexivity|].
-      set (dl := t0 + c_timeout c).
+      destruct (c_start c) as [t0|]; [|split; reflexivity].
+      destruct (add_saturating 981 t0 (c_timeout c)) as [dl|k|site] eqn:Hadd; [| |split; reflexivity].
+      2:{ unfold add_saturating, add_instant in Hadd. repeat match type of Hadd with context [if ?b then _ else _] => destruct b end; discriminate. }
       pose proof (H_opened (c_eng c) now dl) as Ho.
       destruct (e_opened (c_eng c) now dl) as [e' r]. cbn in Ho.
       assert (Htd : e_tag (c_eng c) = TDisconnected) by (apply T2; congruence).
@@ -411,7 +411,7 @@ Section Facts.
   Notation check := (Driver.check E e_opened e_closed thr).
   Notation after_event := (Driver.after_event E e_opened e_closed thr).
   Notation fail_with := (Driver.fail_with E e_opened e_closed thr).
-  Notation do_op := (Driver.do_op E U D e_user e_disc e_reset e_opened e_closed thr).
+  Notation do_op := (Driver.do_op E U D e_tag e_user e_disc e_reset e_opened e_closed thr).
   Notation step_connected := (Driver.step_connected E U D e_tag e_user e_disc e_reset e_opened e_closed e_data e_wc e_service e_nst thr).
 
   (* the loop invariant: the log is grammatical, the loop did not die of a failed transition, and
@@ -445,10 +445,10 @@ Section Facts.
   Proof.
     unfold Driver.enter, cur. cbn. destruct (c_cur (d_c s)) eqn:Hc; cbn.
     - rewrite Hc. auto 10.
-    - destruct thr; [destruct (add_instant 92 now (c_timeout (d_c s)))|]; cbn; rewrite ?Hc; auto 10.
+    - destruct thr; [destruct (add_saturating 92 now (c_timeout (d_c s)))|]; cbn; rewrite ?Hc; auto 10.
     - rewrite Hc. auto 10.
     - unfold advance_reconnect_period. cbn. destruct (advance (c_bo (d_c s)) now) as [b w]. cbn.
-      destruct thr; [destruct (add_instant 333 now w)|]; cbn; rewrite ?Hc; auto 10.
+      destruct thr; [destruct (add_saturating 333 now w)|]; cbn; rewrite ?Hc; auto 10.
     - rewrite Hc. auto 10.
   Qed.
 
@@ -496,7 +496,7 @@ Section Facts.
     - contradiction.
     - apply dinv_stopped_loop; cbn; auto.
       (* a panicking transition emitted nothing *)
-      subst evs. rewrite app_nil_r. exact Hg.
+      destruct Ht as [-> _]. rewrite app_nil_r. exact Hg.
   Qed.
 
 
@@ -668,6 +668,128 @@ Section Facts.
     - exists GIdle. split; reflexivity.
   Qed.
 
+  (* ---- stop / restart / close ---- *)
+
+  (* a transition into Stopped while Stopped is desired emits exactly one Stopped and no Attempt *)
+  Lemma transition_to_stopped_events c now c' evs :
+    c_des c = CStopped -> c_cur c <> CStopped -> c_cur c <> CShutdown ->
+    transition c now CStopped = (c', evs, Ok tt) ->
+    count_stopped evs = 1%nat /\ existsb is_attempt_ev evs = false /\ c_cur c' = CStopped /\ c_des c' = CStopped.
+  Proof.
+    intros Hd Hc1 Hc2. unfold Impl.transition, effective_target. rewrite Hd.
+    destruct (c_cur c) eqn:Hcur; try congruence; cbn [cstate_eqb andb negb fst snd].
+    - intros H. cbn in H. inversion H; subst. cbn. repeat split; auto.
+    - destruct (e_closed (c_eng c) now) as [e' r]. cbn [fst snd].
+      destruct r as [[]|k|site]; [|intros H; inversion H|intros H; inversion H].
+      cbn. destruct (c_connack c) as [[|]|]; cbn; intros H; inversion H; subst; cbn; repeat split; auto.
+    - intros H. cbn in H. inversion H; subst. cbn. repeat split; auto.
+  Qed.
+
+  Definition quiet (s : dstate) : Prop := d_status s = Running /\ cur s = CStopped /\ c_des (d_c s) = CStopped.
+
+  Lemma check_stops_leave (s : dstate) now :
+    dinv s -> d_status s = Running -> c_des (d_c s) = CStopped ->
+    c_cur (d_c s) <> CStopped -> c_cur (d_c s) <> CShutdown -> legal (c_cur (d_c s)) CStopped = true ->
+    quiet (leave s now CStopped) /\
+    exists evs, d_log (leave s now CStopped) = d_log s ++ evs /\ count_stopped evs = 1%nat /\ existsb is_attempt_ev evs = false.
+  Proof.
+    intros Hi Hrun Hd Hc1 Hc2 Hleg. pose proof Hi as (_ & _ & Hr). destruct (Hr Hrun) as [Hc Hn].
+    pose proof (transition_ok (d_c s) (d_log s) now CStopped Hc Hleg) as Ht. unfold transition_good in Ht.
+    unfold Driver.leave.
+    destruct (transition (d_c s) now CStopped) as [[c' evs] [[]|k|site]] eqn:Htr.
+    - destruct (transition_to_stopped_events _ _ _ _ Hd Hc1 Hc2 Htr) as (E1 & E2 & E3 & E4).
+      cbn [cstate_eqb]. unfold cur. rewrite E3.
+      destruct (cstate_eqb (c_cur (d_c s)) CStopped) eqn:Hsame; [apply cstate_eqb_eq in Hsame; congruence|].
+      unfold Driver.enter, quiet, cur. cbn. rewrite E3. cbn.
+      split; [repeat split; auto|]. exists evs. auto.
+    - contradiction.
+    - destruct Ht as [_ Hx]. unfold effective_target in Hx. rewrite Hd in Hx. cbn in Hx. discriminate.
+  Qed.
+
+  (* one check in a quiescing state that is not waiting for a DISCONNECT: Stopped, with a single Stopped event *)
+  Lemma check_stops (s : dstate) now :
+    dinv s -> d_status s = Running -> c_des (d_c s) = CStopped ->
+    (cur s <> CConnected \/ c_stop (d_c s) <> SDisc) ->
+    quiet (check s now) /\ dinv (check s now) /\
+    exists evs, d_log (check s now) = d_log s ++ evs /\
+                count_stopped evs = (if cstate_eqb (cur s) CStopped then 0 else 1)%nat /\
+                existsb is_attempt_ev evs = false.
+  Proof.
+    intros Hi Hrun Hd Hw. pose proof (dinv_check s now Hi Hrun) as Hi'.
+    pose proof Hi as (_ & _ & Hr). destruct (Hr Hrun) as [Hc Hn].
+    assert (Hgo : c_cur (d_c s) <> CStopped -> compute_optional_state_transition (d_c s) = Some CStopped ->
+                  quiet (check s now) /\ dinv (check s now) /\
+                  exists evs, d_log (check s now) = d_log s ++ evs /\ count_stopped evs = 1%nat /\ existsb is_attempt_ev evs = false).
+    { intros Hns Hco. unfold Driver.check in *. rewrite Hco in *.
+      assert (Hleg : legal (c_cur (d_c s)) CStopped = true) by (eapply cost_legal; exact Hco).
+      destruct (check_stops_leave s now Hi Hrun Hd Hns Hn Hleg) as [Q X]. auto. }
+    unfold cur in *. unfold compute_optional_state_transition in Hgo. rewrite Hd in Hgo.
+    destruct (c_cur (d_c s)) eqn:Hcur; cbn [cstate_eqb]; try congruence.
+    - (* already Stopped *)
+      unfold Driver.check, compute_optional_state_transition. rewrite Hcur, Hd. cbn [cost].
+      split; [|split].
+      + unfold quiet, cur. cbn. auto.
+      + eapply dinv_ext; [| | |exact Hi]; reflexivity.
+      + exists []. rewrite app_nil_r. cbn. auto.
+    - apply Hgo; [discriminate|reflexivity].
+    - destruct (c_stop (d_c s)) eqn:Hs; try (destruct Hw; congruence); apply Hgo; try discriminate; reflexivity.
+    - apply Hgo; [discriminate|reflexivity].
+  Qed.
+
+  (* restartable: in Stopped with desired Connected (a start request was handled) the next check starts an attempt *)
+  Lemma restart_check (s : dstate) now :
+    d_status s = Running -> cur s = CStopped -> c_des (d_c s) = CConnected ->
+    cur (check s now) = CConnecting /\ d_log (check s now) = d_log s ++ [EvAttempt] /\ d_status (check s now) <> Dead.
+  Proof.
+    intros Hrun Hcur Hd. unfold cur in Hcur.
+    unfold Driver.check, compute_optional_state_transition. rewrite Hcur, Hd. cbn [cost].
+    unfold Driver.leave, Impl.transition, effective_target, cur. rewrite Hcur, Hd. cbn.
+    unfold Driver.enter, cur. cbn.
+    destruct thr; [destruct (add_saturating 92 now _)|]; cbn; repeat split; auto; try discriminate; rewrite Hrun; discriminate.
+  Qed.
+
+  (* close is terminal: once the loop has exited (or died), no event does anything any more *)
+  Lemma exited_terminal (s : dstate) now e : d_status s <> Running -> dstep s now e = s.
+  Proof. intros H. unfold Driver.dstep. destruct (d_status s); try reflexivity. congruence. Qed.
+
+  Lemma exited_terminal_run h : forall (s : dstate), d_status s <> Running -> drun s h = s.
+  Proof.
+    induction h as [|[now e] h IH]; intros s H; cbn; auto. rewrite exited_terminal by exact H. apply IH, H.
+  Qed.
+
+  (* a close request handled outside the wait-for-DISCONNECT state ends the loop at the next check *)
+  Lemma close_check (s : dstate) now :
+    dinv s -> d_status s = Running -> c_des (d_c s) = CShutdown ->
+    (cur s <> CConnected \/ c_stop (d_c s) <> SDisc) ->
+    d_status (check s now) = Exited /\ existsb is_attempt_ev (skipn (length (d_log s)) (d_log (check s now))) = false.
+  Proof.
+    intros Hi Hrun Hd Hw. pose proof Hi as (_ & _ & Hr). destruct (Hr Hrun) as [Hc Hn].
+    unfold Driver.check, compute_optional_state_transition. rewrite Hd. unfold cur in *.
+    assert (Hskip : forall evs, skipn (length (d_log s)) (d_log s ++ evs) = evs).
+    { intros evs. rewrite skipn_app, skipn_all, Nat.sub_diag. reflexivity. }
+    destruct (c_cur (d_c s)) eqn:Hcur; cbn [cost cstate_eqb negb]; try congruence.
+    - (* Stopped -> Shutdown *)
+      unfold Driver.leave, Impl.transition, effective_target, cur. rewrite Hcur, Hd. cbn.
+      rewrite app_nil_r, skipn_all. auto.
+    - (* Connecting -> Stopped, short-circuited to Shutdown *)
+      unfold Driver.leave, Impl.transition, effective_target, cur. rewrite Hcur, Hd. cbn.
+      unfold Driver.enter, cur. cbn. rewrite Hskip. auto.
+    - (* Connected *)
+      assert (Hst : c_stop (d_c s) <> SDisc) by (destruct Hw; congruence).
+      assert (Hleg : legal (c_cur (d_c s)) CStopped = true) by (rewrite Hcur; reflexivity).
+      pose proof (transition_ok (d_c s) (d_log s) now CStopped Hc Hleg) as Ht. unfold transition_good in Ht.
+      assert (Hco : (match c_stop (d_c s) with SDisc => None | _ => Some CStopped end) = Some CStopped)
+        by (destruct (c_stop (d_c s)); congruence).
+      rewrite Hco. unfold Driver.leave.
+      revert Ht. unfold Impl.transition, effective_target, cur. rewrite Hcur, Hd. cbn [cstate_eqb andb negb].
+      destruct (e_closed (c_eng (d_c s)) now) as [e' r]. cbn [fst snd].
+      destruct r as [[]|k|site]; [|contradiction|intros [_ Hx]; discriminate].
+      intros _. cbn. destruct (c_connack (d_c s)) as [[|]|]; cbn; unfold Driver.enter, cur; cbn; rewrite Hskip; auto.
+    - (* PendingReconnect *)
+      unfold Driver.leave, Impl.transition, effective_target, cur. rewrite Hcur, Hd. cbn.
+      unfold Driver.enter, cur. cbn. rewrite Hskip. auto.
+  Qed.
+
   (* ---- C12_event_grammar, C12_loop_alive ---- *)
   Theorem event_grammar e0 bc timeout h :
     e_tag e0 = TDisconnected -> grammar_ok (d_log (drun (dinit E e0 bc timeout) h)) = true.
@@ -716,3 +838,67 @@ Proof.
   eapply loop_alive; eauto.
 Qed.
 
+
+(* ---- stop / restart / close for REACHABLE states (every driver-event history), under the engine facts ---- *)
+Section Reach.
+  Variable E U D : Type.
+  Variable e_tag : E -> etag.
+  Variable e_user : E -> N -> U -> E.
+  Variable e_disc : E -> N -> D -> E.
+  Variable e_reset : E -> N -> E.
+  Variable e_opened : E -> N -> N -> E * outcome unit.
+  Variable e_closed : E -> N -> E * outcome unit.
+  Variable e_data : E -> N -> bytes -> E * list pevent * outcome unit.
+  Variable e_wc : E -> N -> E * outcome unit.
+  Variable e_service : E -> N -> N -> E * bytes * outcome unit.
+  Variable e_nst : E -> N -> option N.
+  Hypothesis facts : engine_facts E U D e_tag e_user e_disc e_reset e_opened e_closed e_data e_wc e_service.
+  Variable thr : bool.
+  Variable e0 : E.
+  Variable bc : Backoff.cfg.
+  Variable timeout : N.
+  Hypothesis e0_disconnected : e_tag e0 = TDisconnected.
+
+  Definition reach (h : list (N * dev U D)) : dstate E :=
+    drun E U D e_tag e_user e_disc e_reset e_opened e_closed e_data e_wc e_service e_nst thr (dinit E e0 bc timeout) h.
+
+  Lemma reach_dinv h : dinv E e_tag (reach h).
+  Proof.
+    destruct facts as (H1 & H2 & H3 & H4 & H5 & H6 & H7 & H8).
+    unfold reach. eapply dinv_drun; eauto. apply dinv_init. exact e0_disconnected.
+  Qed.
+
+  Theorem stop_stops_reach h now :
+    let s := reach h in
+    d_status s = Running -> c_des (d_c s) = CStopped -> (cur s <> CConnected \/ c_stop (d_c s) <> SDisc) ->
+    let s' := check E e_opened e_closed thr s now in
+    d_status s' = Running /\ cur s' = CStopped /\ c_des (d_c s') = CStopped /\
+    exists evs, d_log s' = d_log s ++ evs /\
+                count_stopped evs = (if cstate_eqb (cur s) CStopped then 0 else 1)%nat /\
+                existsb is_attempt_ev evs = false.
+  Proof.
+    intros s Hrun Hd Hw s'. destruct facts as (H1 & H2 & H3 & H4 & H5 & H6 & H7 & H8).
+    destruct (check_stops E e_tag e_opened e_closed H4 H5 thr s now (reach_dinv h) Hrun Hd Hw) as ((Q1 & Q2 & Q3) & _ & X).
+    repeat split; auto.
+  Qed.
+
+  Theorem restartable_reach h now :
+    let s := reach h in
+    d_status s = Running -> cur s = CStopped -> c_des (d_c s) = CConnected ->
+    let s' := check E e_opened e_closed thr s now in
+    cur s' = CConnecting /\ d_log s' = d_log s ++ [EvAttempt] /\ d_status s' <> Dead.
+  Proof. intros s Hrun Hc Hd s'. apply restart_check; auto. Qed.
+
+  Theorem close_terminal_reach h now k :
+    let s := reach h in
+    d_status s = Running -> c_des (d_c s) = CShutdown -> (cur s <> CConnected \/ c_stop (d_c s) <> SDisc) ->
+    let s' := check E e_opened e_closed thr s now in
+    d_status s' = Exited /\
+    existsb is_attempt_ev (skipn (length (d_log s)) (d_log s')) = false /\
+    drun E U D e_tag e_user e_disc e_reset e_opened e_closed e_data e_wc e_service e_nst thr s' k = s'.
+  Proof.
+    intros s Hrun Hd Hw s'. destruct facts as (H1 & H2 & H3 & H4 & H5 & H6 & H7 & H8).
+    destruct (close_check E e_tag e_opened e_closed H4 H5 thr s now (reach_dinv h) Hrun Hd Hw) as [A B].
+    repeat split; auto. apply exited_terminal_run. unfold s'. rewrite A. discriminate.
+  Qed.
+End Reach.
